@@ -91,7 +91,7 @@ theorem covered_alias (last fst : Bool) (t : Txt) (ht : t ∈ aliasTexts) : Cove
     have := (goodOp_alias t ht).any last
     cases fst with
     | true => simpa [joinInner] using this.toFirst
-    | false => simpa [joinInner] using this.notFirst
+    | false => simpa [joinInner] using this.toRest
   · rcases alias_cases t ht with rfl | rfl | rfl | rfl | rfl | rfl | rfl | rfl <;>
       simp [processOperand, aliasTok, processRegister, expectOp, expectReg, aliasName, lower, lowerC,
         A64.spOperandName, A64.spOperandPrefix, A64.spOperandResult]
